@@ -468,8 +468,98 @@ fn concurrent_adds(rounds: u64, seed: u64, fd: i32) -> i32 {
     if crate::istep::supported() {
         drop_sweep(fd, &base);
     }
+    churn_two_owners(fd, &base);
+    drop_during_held_delivery(fd, &base);
     wr(fd, "DONE\n");
     0
+}
+
+/// Two threads create and drop their own instances (different signals) at the same time, 300 times each: every instance
+/// reports its own signal, nothing of it is left afterwards.
+fn churn_two_owners(fd: i32, base: &[c_int]) {
+    use crate::fork::wr;
+    let mut js = Vec::new();
+    for (t, sig) in [libc::SIGUSR1, libc::SIGUSR2].iter().cloned().enumerate() {
+        js.push(std::thread::spawn(move || {
+            crate::set_thread(10 + t as u32, class::MUTATOR);
+            let mut missed = 0u64;
+            for _ in 0..300 {
+                if let Ok(mut s) = signal_hook::iterator::Signals::new([sig]) {
+                    unsafe { libc::raise(sig) };
+                    if !s.pending().any(|x| x == sig) {
+                        missed += 1;
+                    }
+                    drop(s);
+                } else {
+                    missed += 1;
+                }
+                director::lib_exit();
+            }
+            missed
+        }));
+    }
+    let missed: u64 = js.into_iter().map(|j| j.join().unwrap_or(1)).sum();
+    if missed > 0 {
+        wr(fd, &format!("BAD churn: {} of 600 instances created and dropped by two threads at once did not report the delivery of their own signal\n", missed));
+    }
+    let before = STORED.load(Ordering::SeqCst);
+    unsafe {
+        libc::raise(libc::SIGUSR1);
+        libc::raise(libc::SIGUSR2);
+    }
+    if STORED.load(Ordering::SeqCst) != before {
+        wr(fd, &format!("BAD churn: {} actions of instances still ran after it and its handles were dropped (instances created and dropped by two threads at once)\n", STORED.load(Ordering::SeqCst) - before));
+    }
+    if crate::sig::open_fds() != base {
+        wr(fd, &format!("BAD churn: descriptors {:?} differ from the baseline {:?} after all instances were dropped\n", crate::sig::open_fds(), base));
+    }
+}
+
+static HELD: std::sync::atomic::AtomicBool = std::sync::atomic::AtomicBool::new(false);
+
+/// The instance is dropped while a delivery of its signal is inside another (slow) action for 300 ms: the drop waits for that
+/// delivery, and when it returns everything of the instance has been released.
+fn drop_during_held_delivery(fd: i32, base: &[c_int]) {
+    use crate::fork::wr;
+    let sig = libc::SIGHUP;
+    let slow = unsafe {
+        signal_hook_registry::register(sig, || {
+            HELD.store(true, Ordering::SeqCst);
+            let ts = libc::timespec { tv_sec: 0, tv_nsec: 300_000_000 };
+            let mut rem = ts;
+            libc::nanosleep(&ts, &mut rem);
+            HELD.store(false, Ordering::SeqCst);
+        })
+    };
+    for round in 0..2 {
+        let (r, w) = UnixStream::pair().unwrap();
+        let d = match SignalDelivery::with_pipe(r, w, SignalOnly, [sig]) {
+            Ok(d) => d,
+            Err(_) => break,
+        };
+        let jt = std::thread::spawn(move || {
+            crate::set_thread(12, class::VICTIM);
+            unsafe { libc::raise(sig) };
+        });
+        let t0 = crate::now_ms();
+        while !HELD.load(Ordering::SeqCst) && crate::now_ms() - t0 < 5000 {
+            std::thread::yield_now();
+        }
+        drop(d);
+        let still = HELD.load(Ordering::SeqCst);
+        let fds = crate::sig::open_fds();
+        let _ = jt.join();
+        if still {
+            wr(fd, &format!("BAD held delivery round {}: the drop of the instance returned while a delivery that had begun before it is still inside the handler\n", round));
+        }
+        if fds != base {
+            wr(fd, &format!("BAD held delivery round {}: when the drop of the instance returned its descriptors were not released: {:?}, baseline {:?} (a delivery of its signal was inside another action meanwhile)\n", round, fds, base));
+            break;
+        }
+    }
+    if let Ok(id) = slow {
+        signal_hook_registry::unregister(id);
+    }
 }
 
 static DROP_GO: std::sync::atomic::AtomicBool = std::sync::atomic::AtomicBool::new(false);
@@ -643,7 +733,7 @@ pub fn main(args: &[String]) -> i32 {
             concurrent_rounds_done = conc_rounds;
         }
         for l in res.out.lines().filter(|l| l.starts_with("BAD ")).take(3) {
-            let sg = if l.contains("drop sweep") { "concurrent-drop-leaks-registration" } else if l.contains("still ran") || l.contains("descriptors") { "concurrent-add-leaks-registration" } else { "concurrent-add-registers-twice" };
+            let sg = if l.contains("held delivery") { "owner-drop-during-delivery" } else if l.contains("churn") { "concurrent-instances-interfere" } else if l.contains("drop sweep") { "concurrent-drop-leaks-registration" } else if l.contains("still ran") || l.contains("descriptors") { "concurrent-add-leaks-registration" } else { "concurrent-add-registers-twice" };
             bad.push((sg.into(), l[4..].to_string()));
         }
         keys.insert("concurrent-adds".to_string());
@@ -663,7 +753,7 @@ pub fn main(args: &[String]) -> i32 {
         if seen.insert(s.clone()) {
             emit_violation("C12", s, d);
             nviol += 1;
-            if d.contains("still ran after it and its handles were dropped") || d.contains("after the instance and all handles are gone a delivery still ran") {
+            if d.contains("still ran after it and its handles were dropped") || d.contains("after the instance and all handles are gone a delivery still ran") || d.contains("held delivery") {
                 // removal by dropping the owner returned, yet one of its actions starts again (C01)
                 emit_violation("C01", "action-runs-after-owner-drop", d);
             }
